@@ -71,6 +71,7 @@ type FuncContract struct {
 	Line     string
 	Nullable map[string]bool
 	Unroll   map[int]int
+	Uses     []string
 }
 
 type PureFunc struct {
@@ -84,6 +85,7 @@ type PureFunc struct {
 }
 
 type Lemma struct {
+	Uses  []string
 	Name  string
 	Cl    Clause
 	Axiom bool
@@ -207,11 +209,16 @@ func (cs *Contracts) parseFile(path string) error {
 				return fmt.Errorf("%s: %s needs a name", where, word)
 			}
 			name := strings.TrimSpace(rest[:i])
+			var uses []string
+			if j := strings.Index(name, " uses "); j > 0 {
+				uses = splitTop(name[j+6:])
+				name = strings.TrimSpace(name[:j])
+			}
 			e, err := parseExprAt(strings.TrimSpace(rest[i+1:]), where)
 			if err != nil {
 				return err
 			}
-			cs.Lemmas = append(cs.Lemmas, &Lemma{Name: name, Cl: Clause{Text: strings.TrimSpace(rest[i+1:]), Expr: e, Prop: prop, Line: where}, Axiom: word == "axiom", Prop: prop})
+			cs.Lemmas = append(cs.Lemmas, &Lemma{Name: name, Cl: Clause{Text: strings.TrimSpace(rest[i+1:]), Expr: e, Prop: prop, Line: where}, Axiom: word == "axiom", Prop: prop, Uses: uses})
 			cur = nil
 		case "func", "extern":
 			key, params, results, err := parseHeader(rest, where)
@@ -258,6 +265,13 @@ func (cs *Contracts) parseFile(path string) error {
 					return err
 				}
 				cur.Modifies = append(cur.Modifies, cl)
+			}
+		case "use":
+			if cur == nil {
+				return fmt.Errorf("%s: use outside func", where)
+			}
+			for _, n := range splitTop(rest) {
+				cur.Uses = append(cur.Uses, n)
 			}
 		case "trusted":
 			if cur == nil {
